@@ -7,17 +7,22 @@ from ..core import Verdict, close
 from ..refs import units_ref as R
 
 ID = "C09"
-RULE = ("Stateful histories over the REAL process-wide tables, drawn as operation lists: open a UnitEnvironment "
-        "(1-4 entries, dict or Quantity form, optional custom conversion class, optional failing entry at position j: "
-        "existing symbol, symbol equal to a prefixed table symbol, new unit whose prefixed form clashes, missing "
-        "'magnitude'), close the innermost scope or (overlapping lifetimes, strategy 'overlap') the one opened first, a "
-        "NumericalSolver used on a parsed environment with and without a with-block, a with-block whose body raises, a with-block that uses the units, "
-        "DIP parses with $unit lines that succeed / clash with a table constant / are followed by a failing statement; "
-        "nesting <= 4, <= 25 steps. Model: stack of registered rows on top of the pristine snapshot; whether a "
-        "registration must fail is decided by an independent duplicate check. After EVERY step the key order and row "
-        "contents of UNIT_STANDARD, UNIT_PREFIXES and the list UNIT_TYPES equal pristine + stack; registered symbols "
-        "work inside and are unknown outside. Non-trivial: a registration failing after >=1 success, or a DIP parse "
-        "that raises with custom units defined, or nesting >= 2. Distinct = distinct case JSON.")
+RULE = (
+    'Stateful histories over the REAL process-wide tables, drawn as operation lists: open a UnitEnvironment (1-4 '
+    'entries, dict or Quantity form, optional custom conversion class, optional failing entry at position j: '
+    'existing symbol, symbol equal to a prefixed table symbol, new unit whose prefixed form clashes, missing '
+    "'magnitude'), close the innermost scope or (overlapping lifetimes, strategy 'overlap') the one opened first, "
+    'a NumericalSolver used on a parsed environment with and without a with-block, a with-block whose body '
+    'raises, a with-block that uses the units, DIP parses with $unit lines that succeed / clash with a table '
+    'constant / are followed by a failing statement; nesting <= 4, <= 25 steps. Model: stack of registered rows '
+    'on top of the pristine snapshot; whether a registration must fail is decided by an independent duplicate '
+    'check. After EVERY step the key order and row contents of UNIT_STANDARD, UNIT_PREFIXES and the list '
+    'UNIT_TYPES equal pristine + stack; registered symbols work inside and are unknown outside. Non-trivial: a '
+    'registration failing after >=1 success, or a DIP parse that raises with custom units defined, or nesting >= '
+    '2. Later rounds: two different custom conversion classes with overlapping lifetimes; data(Format.QUANTITY) '
+    'after a parse; a prefixed use of a scoped unit followed by a later scope that defines the symbol '
+    'differently; solver variants (with / plain / raising / comparing). Distinct = distinct case JSON.'
+)
 ASSUMPTIONS = [
     "scopes are closed innermost-first (LIFO), single-threaded",
     "the harness restores the tables after recording a violation so that one leak cannot cascade into the next case",
